@@ -110,7 +110,7 @@ def completeOne (W : Spec.Complete.World) (cl : String) : String :=
       let a := Spec.Complete.complete W wsRev.reverse p wb
       let lw := match a.lenientWord with | none => "-" | some x => optListText x
       let ll := match a.lenientLast with | none => "-" | some x => optListText x
-      s!"{optListText a.strict}|{if a.ambiguous then 1 else 0}|{lw}|{ll}|{callsText a.required}|{callsText a.allowed}"
+      s!"{optListText a.strict}|{if a.ambiguous then 1 else if a.lenientAmbiguous then 2 else 0}|{lw}|{ll}|{callsText a.required}|{callsText a.allowed}"
     | [] => "bad-cmdline"
   | _ => "bad-cmdline"
 
